@@ -425,7 +425,7 @@ theorem contourOk_no_cubic (style : Style) (fl : List Nat) (lastFlag : Nat)
         split
         · apply acceptsK_no_cubic
           intro k hm
-          exact hk (f :: tail) h k (List.mem_of_mem_dropLast hm)
+          exact hk (f :: tail) h k (List.dropLast_subset _ hm)
         · exact acceptsK_no_cubic _ (hk (f :: tail) h)
       | harfBuzz =>
         simp only []
@@ -681,7 +681,7 @@ theorem contourToPath_coords (style : Style) (pts : List Pt) (last : Pt)
           simp only []
           split
           · apply runContour_coords C R B hmid hout _ _ hlast
-            intro a ha; exact hall a (List.mem_of_mem_dropLast ha)
+            intro a ha; exact hall a (List.dropLast_subset _ ha)
           · exact runContour_coords C R B hmid hout _ _ (hmidpt _ _ hlast hfirst) hall
         | harfBuzz =>
           simp only []
@@ -757,15 +757,57 @@ end coords
 
 /-! ### the fixed-point instantiation -/
 
-theorem midI32_inI32 (a b : Int) : inI32 (midI32 a b) := by
-  unfold midI32 inI32 wrapI32
-  simp only []
-  split <;> rw [Int.tdiv_def] <;> simp only [Int.sign] <;> split <;> omega
+theorem wrapI32_inI32 (x : Int) : inI32 (wrapI32 x) := by
+  unfold inI32 wrapI32; simp only []; split <;> omega
 
-theorem f32RoundInt_bound (v : Int) (h : inI32 v) : -2147483648 ≤ f32RoundInt v ∧ f32RoundInt v ≤ 2147483648 := by
-  unfold inI32 at h
-  unfold f32RoundInt f32RoundNat f32Step
+theorem tdiv2 (x : Int) : Int.tdiv x 2 = if 0 ≤ x then x / 2 else -((-x) / 2) := by
+  split
+  · rename_i h; exact Int.tdiv_eq_ediv_of_nonneg h
+  · rename_i h
+    have h2 : x = -(-x) := by omega
+    rw [h2, Int.neg_tdiv, Int.tdiv_eq_ediv_of_nonneg (by omega)]
+    simp
+
+theorem midI32_inI32 (a b : Int) : inI32 (midI32 a b) := by
+  unfold midI32 inI32
+  rw [tdiv2]
+  have hw := wrapI32_inI32 (a + b)
+  unfold inI32 at hw
+  split <;> omega
+
+theorem f32Step_bound (a q : Int) (hq : 0 < q) : a - q < f32Step a q ∧ f32Step a q < a + q ∧ f32Step a q % q = 0 := by
+  unfold f32Step
   simp only []
-  split <;> (repeat' split) <;> omega
+  have h1 := Int.emod_nonneg a (Int.ne_of_gt hq)
+  have h2 := Int.emod_lt_of_pos a hq
+  have h3 : (a - a % q) % q = 0 := by
+    have h5 : a - a % q = q * (a / q) := by have := Int.mul_ediv_add_emod a q; omega
+    rw [h5]; exact Int.mul_emod_right _ _
+  have h4 : (a - a % q + q) % q = 0 := by
+    rw [Int.add_emod_right]; exact h3
+  refine ⟨?_, ?_, ?_⟩ <;> (repeat' split) <;> first | omega | assumption
+
+theorem f32RoundNat_bound (a : Int) (h0 : 0 ≤ a) (h1 : a ≤ 2147483648) :
+    0 ≤ f32RoundNat a ∧ f32RoundNat a ≤ 2147483648 := by
+  unfold f32RoundNat
+  split; · omega
+  split; · have := f32Step_bound a 2 (by omega); omega
+  split; · have := f32Step_bound a 4 (by omega); omega
+  split; · have := f32Step_bound a 8 (by omega); omega
+  split; · have := f32Step_bound a 16 (by omega); omega
+  split; · have := f32Step_bound a 32 (by omega); omega
+  split; · have := f32Step_bound a 64 (by omega); omega
+  split; · have := f32Step_bound a 128 (by omega); omega
+  split
+  · have := f32Step_bound a 256 (by omega); omega
+  · omega
+
+theorem f32RoundInt_bound (v : Int) (h : inI32 v) :
+    -2147483648 ≤ f32RoundInt v ∧ f32RoundInt v ≤ 2147483648 := by
+  unfold inI32 at h
+  unfold f32RoundInt
+  split
+  · have := f32RoundNat_bound (-v) (by omega) (by omega); omega
+  · have := f32RoundNat_bound v (by omega) (by omega); omega
 
 end FontVerif.ToPath
